@@ -1300,6 +1300,9 @@ fn has_reif_lin_mismatch(case: &Case) -> bool {
 
 /// narrow matcher for a panic: (message kind, source file, syntactic shape of the case)
 pub fn tag_panic(case: &Case, file: &str, msg: &str) -> String {
+    if is_clean_case(case) {
+        return "-".into();
+    }
     let kind = msg_kind(msg);
     let extreme = case.extreme();
     if kind == "assert" && file.ends_with("domain/sparse_set.rs") && msg.contains("is_empty") && has_empty_decl(case) {
@@ -1874,8 +1877,38 @@ fn float_risk(case: &Case) -> bool {
     nonfinite || m >= 1e8 || m * 2.3e-16 * 16.0 >= step
 }
 
-/// fixed reproducers of the known findings (run once per suite, each in its own process)
+/// fixed cases on which the pinned tree behaves correctly although they lie inside the input region
+/// of a recorded finding (extreme arguments): no matcher applies to them — whatever goes wrong on
+/// one of these is reported as an unlisted failure
+fn clean_cases() -> Vec<Case> {
+    let cfg = |t: Option<u64>, mem: Option<u64>, prec: Option<i32>| Cfg { ctor: 1, timeout_ms: t, mem_mb: mem, precision: prec, unlimited: false };
+    vec![
+        // extreme, and correct on the pinned tree: an unbounded variable whose bounds are inferred from a
+        // context of large magnitude (the clamp branch of `infer_bounds` re-centres a 10^6 window)
+        Case { cfg: cfg(Some(2000), None, None), steps: vec![S::Int(1_500_000_000, 1_500_001_000), S::Int(i32::MIN, i32::MAX), S::Fluent { l: E::V(1), op: 0, r: E::V(0), wrap: 0, route: 0 }], call: Call::Solve },
+        Case { cfg: cfg(Some(2000), None, None), steps: vec![S::Int(-1_500_001_000, -1_500_000_000), S::Int(i32::MIN, i32::MAX), S::Fluent { l: E::V(1), op: 0, r: E::V(0), wrap: 0, route: 0 }], call: Call::Solve },
+        Case { cfg: cfg(Some(2000), None, None), steps: vec![S::Int(2_000_000_000, 2_000_070_000), S::Int(i32::MIN, i32::MAX)], call: Call::Validate },
+        // extreme, and correct on the pinned tree: a span beyond i32 is rejected by the memory estimate
+        // (`MemoryLimit` from the solving call) before any domain is allocated
+        Case { cfg: cfg(Some(2000), None, None), steps: vec![S::Int(-2_000_000_000, 2_000_000_000)], call: Call::Solve },
+        Case { cfg: cfg(Some(2000), None, None), steps: vec![S::Int(0, 3), S::Int(-1_500_000_000, 1_500_000_000)], call: Call::Minimize(Obj::V(0)) },
+    ]
+}
+
+fn is_clean_case(case: &Case) -> bool {
+    let s = case.show();
+    clean_cases().iter().any(|c| c.show() == s)
+}
+
+/// fixed reproducers of the known findings (run once per suite, each in its own process),
+/// followed by the clean fixed cases
 fn fixed_cases() -> Vec<Case> {
+    let mut v = finding_cases();
+    v.extend(clean_cases());
+    v
+}
+
+fn finding_cases() -> Vec<Case> {
     let cfg = |t: Option<u64>, mem: Option<u64>, prec: Option<i32>| Cfg { ctor: 1, timeout_ms: t, mem_mb: mem, precision: prec, unlimited: false };
     vec![
         // in range: step 1e-12 is below the ULP of 10000.0 -> the search never returns, timeout ignored
@@ -1894,11 +1927,6 @@ fn fixed_cases() -> Vec<Case> {
         Case { cfg: cfg(Some(150), None, None), steps: vec![S::Int(0, 3), S::Table { vs: vec![0], rows: vec![vec![A::K(1), A::K(2)]], route: 0 }], call: Call::Solve },
         // in range: reified linear helper with fewer coefficients than variables
         Case { cfg: cfg(Some(150), None, None), steps: vec![S::Ints(2, 0, 2), S::Bool, S::Lin { rel: 1, cs: vec![1], vs: vec![0, 1], k: 1, reif: Some(2), route: 0 }], call: Call::Solve },
-        // extreme, and correct on the pinned tree: an unbounded variable whose bounds are inferred from a
-        // context of large magnitude (the clamp branch of `infer_bounds` re-centres a 10^6 window)
-        Case { cfg: cfg(Some(2000), None, None), steps: vec![S::Int(1_500_000_000, 1_500_001_000), S::Int(i32::MIN, i32::MAX), S::Fluent { l: E::V(1), op: 0, r: E::V(0), wrap: 0, route: 0 }], call: Call::Solve },
-        Case { cfg: cfg(Some(2000), None, None), steps: vec![S::Int(-1_500_001_000, -1_500_000_000), S::Int(i32::MIN, i32::MAX), S::Fluent { l: E::V(1), op: 0, r: E::V(0), wrap: 0, route: 0 }], call: Call::Solve },
-        Case { cfg: cfg(Some(2000), None, None), steps: vec![S::Int(2_000_000_000, 2_000_070_000), S::Int(i32::MIN, i32::MAX)], call: Call::Validate },
         // extreme: the known overflow sites
         Case { cfg: cfg(Some(150), None, None), steps: vec![S::Int(2_000_000_000, 2_000_000_005), S::Int(2_000_000_000, 2_000_000_005), S::Bin { op: 0, x: A::V(0), y: A::V(1), route: 0 }], call: Call::Solve },
         Case { cfg: cfg(Some(150), None, None), steps: vec![S::IntSet(vec![i32::MAX])], call: Call::Solve },
@@ -1919,6 +1947,9 @@ struct Iso {
 /// (`search/mod.rs`: the limit checks sit outside the descent loop), which shows as a hang or, when the
 /// cloned spaces pile up, as an allocation failure
 fn tag_hang(case: &Case, at: &str) -> String {
+    if is_clean_case(case) {
+        return "-".into();
+    }
     if at.starts_with("call") && float_risk(case) {
         "float-split-no-progress".into()
     } else if at.starts_with("call") && off_grid(case) {
@@ -1928,6 +1959,9 @@ fn tag_hang(case: &Case, at: &str) -> String {
     }
 }
 fn tag_abort(case: &Case, at: &str) -> String {
+    if is_clean_case(case) {
+        return "-".into();
+    }
     if at.starts_with("call") && float_risk(case) {
         "float-split-no-progress".into()
     } else if at.starts_with("call") && off_grid(case) {
